@@ -30,7 +30,8 @@ CONSTANTS
     MaxPub,         \* publishes per behaviour
     MaxSubOps,      \* subscribe/unsubscribe operations per behaviour
     MaxCloses,      \* connection ends per behaviour
-    EnUnsub, EnPing, EnDisconnect, EnStale    \* feature switches (BOOLEAN)
+    EnUnsub, EnPing, EnDisconnect, EnStale,   \* feature switches (BOOLEAN)
+    PubEmpty        \* subset of BOOLEAN: publishes with an empty payload (clears a retained message)
 
 \* src: the net whose link sent the event (ghost, for the isolation properties)
 Ev(kind, id, arg, src) == [kind |-> kind, id |-> id, arg |-> arg, src |-> src]
@@ -55,7 +56,11 @@ GInit ==
      cpk |-> [n \in Nets |-> 0],
      sess |-> [c \in CIDs |-> FALSE],     \* a persistent session of this client id exists (C08)
      badSp |-> FALSE,                     \* a CONNACK carried the wrong session-present flag
-     dirtyClean |-> FALSE]                \* a clean-session connection started with subscriptions or requests
+     dirtyClean |-> FALSE,                \* a clean-session connection started with subscriptions or requests
+     retDone |-> [c \in CIDs |-> [f \in Filters |-> FALSE]],   \* the retained replay of this subscription has happened (C15)
+     badRet |-> FALSE,                    \* a retained replay broke a rule of C15
+     willCount |-> [c \in CIDs |-> 0],    \* will publishes since the will was registered (C16)
+     discHandled |-> [c \in CIDs |-> FALSE]]   \* a DISCONNECT packet of the registering connection was handled
 
 Init ==
     /\ R = RInit(Filters, Topics, CIDs)
@@ -71,6 +76,8 @@ NewOut(n) == SubSeq(nets'[n].obuf, Len(nets[n].obuf) + 1, Len(nets'[n].obuf))
 
 \* live forwards (not retained replays) pushed for filter f, as message ids
 FwdMs(out, f) == LET s == SelectSeq(out, LAMBDA x : x.t = "forward" /\ x.kind = f /\ ~x.retain) IN [i \in 1..Len(s) |-> s[i].m]
+\* retained replays pushed for filter f, as message ids
+RetMs(out, f) == LET s == SelectSeq(out, LAMBDA x : x.t = "forward" /\ x.kind = f /\ x.retain) IN [i \in 1..Len(s) |-> s[i].m]
 AcksOf(out) == LET s == SelectSeq(out, LAMBDA x : x.t = "ack" /\ x.kind \in {"puback", "pubrec", "pubcomp", "suback", "unsuback", "pingresp"})
                IN [i \in 1..Len(s) |-> <<s[i].kind, s[i].id>>]
 
@@ -105,6 +112,20 @@ MatchAcks(acks, owed) ==
 
 ConnNet(r, c) == IF r.connMap[c] >= 0 THEN r.conns[r.connMap[c]].net ELSE "nonet"
 
+\* a retained replay of k messages for (n, f) was cut by the delivery window: QoS>0 by the free inflight slots, QoS 0 by
+\* max_outgoing_packet_count
+WindowLimited(n, f, k) ==
+    LET id == nets[n].id IN
+    Live(R', id) /\ (Len(R'.conns[id].inflight) = MaxInflight \/ k = OutBatch)
+
+\* the subscription of session c on f took effect in this step (also when it was removed and made again within one batch:
+\* the request is then a fresh one, recognisable by its retained-replay flag)
+NewSub(c, f) ==
+    /\ f \in SubsOf(R', c)
+    /\ \/ f \notin SubsOf(R, c)
+       \/ /\ ReqsFor(R', c, f) # <<>> /\ ReqsFor(R', c, f)[1].retained
+          /\ (ReqsFor(R, c, f) = <<>> \/ ~ReqsFor(R, c, f)[1].retained \/ ReqsFor(R, c, f)[1].cursor # ReqsFor(R', c, f)[1].cursor)
+
 GhostRouterStep ==
     LET out(n) == NewOut(n)
         newFwd(c, f) == LET ns == {x \in Nets : nets[x].cid = c /\ FwdMs(out(x), f) # <<>>} IN
@@ -115,20 +136,42 @@ GhostRouterStep ==
     G' = [G EXCEPT
             !.start = [c \in CIDs |-> [f \in Filters |->
                         IF f \notin SubsOf(R', c) THEN -1
-                        ELSE IF f \notin SubsOf(R, c) THEN ReqCursor(R', c, f)       \* took effect in this step
+                        ELSE IF NewSub(c, f) THEN ReqCursor(R', c, f)       \* took effect in this step
                         ELSE G.start[c][f]]],
             !.fwd = [c \in CIDs |-> [f \in Filters |->
                         LET base == G.fwd[c][f] \o newFwd(c, f)
                             k == ReqCursor(R', c, f)
-                            st == IF f \notin SubsOf(R, c) THEN k ELSE G.start[c][f]
+                            st == G.start[c][f]
                         IN  IF f \notin SubsOf(R', c) THEN <<>>
-                            ELSE IF f \notin SubsOf(R, c) THEN <<>>
+                            ELSE IF NewSub(c, f) THEN <<>>
                             \* the session's connection ended or was replaced: what was not acknowledged will be sent again
                             ELSE IF ConnNet(R, c) # ConnNet(R', c) /\ k >= st /\ k - st < Len(base) THEN SubSeq(base, 1, k - st)
                             ELSE base]],
             !.spurious = @ \/ \E n \in Nets : \E i \in 1..Len(out(n)) :
                              out(n)[i].t = "forward" /\ out(n)[i].kind \notin SubsOf(R', nets[n].cid) /\ out(n)[i].kind \notin SubsOf(R, nets[n].cid),
             !.badAck = @ \/ \E n \in Nets : failed(n),
+            \* ---- C15: retained replays pushed in this step, per net and filter
+            !.retDone = [c \in CIDs |-> [f \in Filters |->
+                            IF f \notin SubsOf(R', c) \/ NewSub(c, f) THEN FALSE
+                            ELSE G.retDone[c][f] \/ (\E n \in Nets : nets[n].cid = c /\ RetMs(out(n), f) # <<>>)]],
+            !.badRet = @ \/ \E n \in Nets : \E f \in Filters :
+                         LET ms == RetMs(out(n), f)
+                             c == nets[n].cid
+                             due == {R.retained[t].m : t \in {t \in Topics : R.retained[t] # NOMSG /\ Matches(t, f)}}
+                         IN  ms # <<>> /\
+                             \/ \E i \in 1..Len(ms) : ms[i] \notin due                          \* not the retained message of a matching topic
+                             \/ \E i, j \in 1..Len(ms) : i # j /\ ms[i] = ms[j]               \* twice
+                             \/ (G.retDone[c][f] /\ f \in SubsOf(R, c))                        \* replayed again for an existing subscription
+                             \/ (Len(ms) < Cardinality(due) /\ ~WindowLimited(n, f, Len(ms))),   \* incomplete although it would have fit
+            \* ---- C16
+            !.willCount = [c \in CIDs |->
+                            IF \E n \in Nets : nets[n].cid = c /\ ~nets[n].held /\ nets'[n].held /\ nets[n].will # NOMSG THEN 0
+                            ELSE IF R.wills[c] # NOMSG /\ R'.wills[c] = NOMSG /\ chan # <<>> /\ Head(chan).kind = "PublishWill" THEN G.willCount[c] + 1
+                            ELSE G.willCount[c]],
+            !.discHandled = [c \in CIDs |->
+                            IF \E n \in Nets : nets[n].cid = c /\ ~nets[n].held /\ nets'[n].held /\ nets[n].will # NOMSG THEN FALSE
+                            ELSE IF R.wills[c] # NOMSG /\ R'.wills[c] = NOMSG /\ chan # <<>> /\ Head(chan).kind = "DeviceData" THEN TRUE
+                            ELSE G.discHandled[c]],
             \* C08: connections accepted in this step (a Connect event was handled and the net became held)
             !.sess = [c \in CIDs |-> LET ns == {n \in Nets : nets[n].cid = c /\ ~nets[n].held /\ nets'[n].held} IN
                                       IF ns = {} THEN G.sess[c] ELSE ~nets[CHOOSE n \in ns : TRUE].clean],
@@ -210,7 +253,7 @@ NClose(n) ==
 
 \* after the will delay the link asks for the will to be published
 NWill(n) ==
-    /\ nets[n].phase = "closed" /\ NetWill[n] # NOMSG
+    /\ nets[n].phase = "closed"
     /\ nets' = [nets EXCEPT ![n].phase = "done"]
     /\ chan' = Append(chan, Ev("PublishWill", nets[n].id, nets[n].cid, n))
     /\ UNCHANGED <<R, G>>
@@ -244,8 +287,8 @@ CUnsubscribe(n) ==
 
 CPublish(n) ==
     /\ n \in Publishers /\ G.npub < MaxPub
-    /\ \E t \in Topics, q \in PubQoS, rt \in PubRetain :
-         LET msg == Msg(G.npub + 1, t, q, rt, FALSE)
+    /\ \E t \in Topics, q \in PubQoS, rt \in PubRetain, em \in PubEmpty :
+         LET msg == Msg(IF em THEN 0 ELSE G.npub + 1, t, q, rt, em)     \* the id is the payload; an empty payload carries none
              pk == IF q = 0 THEN 0 ELSE NextPk(n)
          IN
          /\ Push(n, PPublish(msg, pk))
@@ -344,6 +387,19 @@ NoSpurious == ~G.spurious
 \* C06
 AcksInOrder == ~G.badAck
 
+\* C15
+RetainedRules == ~G.badRet
+
+\* C16
+WillAtMostOnce == \A c \in CIDs : G.willCount[c] <= 1
+WillNeverAfterDisconnect == \A c \in CIDs : G.discHandled[c] => G.willCount[c] = 0
+\* the link of a connection with a will has ended, asked for the will, and the router has handled everything: the will
+\* was published unless the client's DISCONNECT was handled first (takeover of the client id is outside the claim)
+WillPublishedWhenDue ==
+    (chan = <<>>) =>
+        \A n \in Nets : (nets[n].phase = "done" /\ nets[n].will # NOMSG /\ Cardinality({x \in Nets : nets[x].cid = nets[n].cid /\ nets[x].phase # "idle"}) = 1)
+                            => (G.willCount[nets[n].cid] = (IF G.discHandled[nets[n].cid] THEN 0 ELSE 1))
+
 \* C08
 SessionPresentRule == ~G.badSp
 CleanStartsEmpty == ~G.dirtyClean
@@ -377,6 +433,10 @@ AckClosesOnlyThat == [][AckClosesOnlyThatStep]_vars
 NoCrossGenerationStep(kinds) ==
     \A i \in Ids : (Gone(i) /\ chan # <<>> /\ Head(chan).kind \in kinds) => Head(chan).src = R.conns[i].net
 NoCrossGeneration == [][NoCrossGenerationStep({"DeviceData", "Disconnect", "Ready", "PublishWill"})]_vars
+\* known finding (C14): a late Event::Disconnect of an ended connection removes the connection that reuses its id.
+\* (A late DeviceData only makes the router look into the new connection's own buffer earlier: whatever then happens is
+\* caused by that connection's own packets, so DeviceData is not part of the demand.)
+NoCrossGenerationButDisconnect == [][NoCrossGenerationStep({"Ready", "PublishWill"})]_vars
 
 \* nothing can happen any more without a new stimulus from a client
 RouterIdle == chan = <<>> /\ (\A k \in 1..Len(R.readyq) : ~Live(R, R.readyq[k]))
